@@ -367,22 +367,81 @@ def mergeSingles (r : NodeDelegs D) : NodeDelegs D → Except Err (NodeDelegs D)
   | [] => .ok r
   | e :: rest => if (lookup e.1 r).isSome then .error .query else mergeSingles (r ++ [e]) rest
 
+/-- `update_node_property(node, <delegations property>, ds.to_json())` -/
+def writeNode (ops : DetailOps D) (e : String × Delegations D) : Except Err (String × JVal) := do
+  let j ← encode ops e.2
+  pure (e.1, j)
+
+/-- `get_delegations(node, ty)`: `Delegations.from_json(<property text>, atype=ty)` -/
+def readNode (ops : DetailOps D) (ty : DType) (e : String × JVal) : Except Err (String × Delegations D) := do
+  let ds ← decode ops ty e.2
+  pure (e.1, ds)
+
 /-- what `annotate_delegations_and_pools(dels=dels, pools=ps)` writes with `update_node_property`: the type whose
 delegations property is written (the *pools'* type) and, node by node in dictionary order, the JSON value of `to_json()` of
 the node's `Delegations` (what is left written when a `to_json` raises half-way is not modelled) -/
 def annotate (ops : DetailOps D) (ps : Pools D) (dels : NodeDelegs D) : Except Err (DType × List (String × JVal)) := do
   let r ← generate ops ps
   let r ← mergeSingles r dels
-  let w ← r.mapM (fun e => do
-    let j ← encode ops e.2
-    pure (e.1, j))
+  let w ← r.mapM (writeNode ops)
   pure (ps.ty, w)
 
 /-- `get_delegations(node_id, delegation_type=ty)` for every written node: `Delegations.from_json(text, atype=ty)` -/
 def readAll (ops : DetailOps D) (ty : DType) (w : List (String × JVal)) : Except Err (NodeDelegs D) :=
-  w.mapM (fun e => do
-    let ds ← decode ops ty e.2
-    pure (e.1, ds))
+  w.mapM (readNode ops ty)
+
+/-! ## `SubstrateTopology.single_delegation` -/
+
+/-- a model element (node, component, network service, interface) as `single_delegation` sees it -/
+structure Elem (D : Type) where
+  node : String
+  /-- `e.get_property("stitch_node")` is truthy -/
+  stitch : Bool
+  caps : Option D
+  labs : Option D
+
+/-- `e.get_property(pname='capacities' | 'labels')` -/
+def Elem.own (e : Elem D) : DType → Option D
+  | .cap => e.caps
+  | .lab => e.labs
+
+/-- `__copy_to_delegations(e, atype, delegation_id)` -/
+def copyToDelegations (ops : DetailOps D) (ty : DType) (did : String) (e : Elem D) : Except Err (Option (Delegations D)) :=
+  if e.stitch then .ok none
+  else match e.own ty with
+    | none => .ok none
+    | some x => do
+      let d ← mkDelegation ty did .single none
+      let d ← setDetails ops d x
+      let ds ← addDelegation { ty := ty, items := [] } d
+      pure (some ds)
+
+/-- `d[node] = ds` on a dict keyed by node id -/
+def setNode (n : String) (ds : Delegations D) : NodeDelegs D → NodeDelegs D
+  | [] => [(n, ds)]
+  | e :: l => if e.1 = n then (n, ds) :: l else e :: setNode n ds l
+
+/-- the element loop of `single_delegation` for one delegation type (elements in traversal order) -/
+def singlesStep (ops : DetailOps D) (ty : DType) (did : String) (acc : NodeDelegs D) (e : Elem D) : Except Err (NodeDelegs D) :=
+  match copyToDelegations ops ty did e with
+  | .error err => .error err
+  | .ok none => .ok acc
+  | .ok (some ds) => .ok (setNode e.node ds acc)
+
+def singlesOf (ops : DetailOps D) (ty : DType) (did : String) (elems : List (Elem D)) : Except Err (NodeDelegs D) :=
+  elems.foldlM (singlesStep ops ty did) []
+
+/-- `single_delegation(delegation_id, label_pools, capacity_pools)`: for `t in DelegationType` (CAPACITY, then LABEL)
+collect the elements' own capacities / labels and `annotate_delegations_and_pools(dels, pools[t])` -/
+def singleDelegation (ops : DetailOps D) (did : String) (elems : List (Elem D)) (labPools capPools : Pools D) :
+    Except Err (List (DType × List (String × JVal))) :=
+  if labPools.ty ≠ .lab ∨ capPools.ty ≠ .cap then .error .assertion
+  else do
+    let dc ← singlesOf ops .cap did elems
+    let wc ← annotate ops capPools dc
+    let dl ← singlesOf ops .lab did elems
+    let wl ← annotate ops labPools dl
+    pure [wc, wl]
 
 /-! ## A concrete details type: the instance `__dict__` of `Capacities` / `Labels` -/
 
